@@ -63,6 +63,13 @@ func pattern(seed int64, stream, dir int, j int) byte {
 
 type cksum struct{ h uint32 }
 
+func (c *cksum) sum() uint32 {
+	if c.h == 0 {
+		return 2166136261
+	}
+	return c.h
+}
+
 func (c *cksum) add(b []byte) {
 	h := c.h
 	if h == 0 {
@@ -528,7 +535,7 @@ func traceCoq(wl Workload, res *traceResult, fx string) (string, []string) {
 				side = "SB"
 			}
 			ss = append(ss, fmt.Sprintf("SS %d %s %d %d %d %d %s %s %s %s", res.ids[k], side, r.wlen, r.rlen,
-				r.rck.h, wck.h, small, boolCoq(r.eof), boolCoq(r.peerClosed), boolCoq(r.drained)))
+				r.rck.sum(), wck.sum(), small, boolCoq(r.eof), boolCoq(r.peerClosed), boolCoq(r.drained)))
 			if r.eof {
 				tags = append(tags, "stream:eof")
 			}
